@@ -10,20 +10,20 @@
    FULL STATEMENT AIMED AT (reduce_eq_fold): for every history of add / remove / update
    cycles and every associative f, after every cycle the published root is
    [spec_result f cf vals], vals = the values of the live leaves in dense order.
-   WHAT IS PROVED HERE: the statement for ONE cycle of the model's own [reduce_cycle] from an
-   arbitrary state satisfying the invariant [tree_inv] (reduce_eq_fold_cycle: steady state, no
-   growth; reduce_eq_fold_growth_partial: full rebuild / growth at the level of the two passes),
-   for the lifted-kernel combiner, so by induction for every history whose cycles meet the stated
-   hypotheses about the SOURCE collection (every reconciled leaf has a value; values of leaves
-   neither structural nor ticked are unchanged - property C05); plus the static statement for
-   every locally consistent tree.  WHAT IS MISSING for the full statement: (1) the first-
-   observation / growth / not-yet-valid branches of reduce_reconcile are proved at the level of
-   the structural and evaluation passes but not yet threaded through [reduce_cycle], and the
-   capacity arithmetic (bit_ceil) is a hypothesis; (2) the source-collection hypotheses are not
-   derived from the slot-store model; (3) the scheduling argument for generic (node / sub-graph)
-   combiners, which re-evaluate only when notified.  All are exercised by the correspondence
-   check on every generated history (operand logs, leaf and combiner counts, results), see
-   docs/notes-reduce.md. *)
+   WHAT IS PROVED HERE (for the lifted-kernel combiner, c_lifted cf = true): exactly that -
+   [reduce_eq_fold] over every list of cycles from the empty reduction, by induction with
+   fold_left over [reduce_eq_fold_cycle], which covers EVERY evaluated cycle of the model's own
+   [reduce_cycle] (first observation, collection not yet valid, steady state, partial rebuild,
+   full rebuild, growth with bank swap), the capacity arithmetic (bit_ceil) being proved
+   ([capacity_is_a_power_of_two]); [reduce_order_independent] over whole histories.  The
+   hypotheses of the history theorem are about the SOURCE collection only and are kept as the
+   explicit predicate [hist_ok]/[src_ok] (property C05: every leaf the reconciliation keeps has a
+   value in the new store; values of leaves neither structural nor ticked are unchanged unless the
+   tree is rebuilt in full).  WHAT IS STILL MISSING: (1) [src_ok] is not derived from the
+   slot-store model of the TSD (it is inhabited by a concrete history, c11_history_inhabited);
+   (2) the scheduling argument for generic (node / sub-graph) combiners, which re-evaluate only
+   when notified - the generic mode is in the model and in the differential (operand logs line by
+   line) but not in a theorem; (3) unreachability of the modelled "inactive bank still occupied" error. *)
 Require Import Base Reduce ReduceFacts.
 From Coq Require Import PeanoNat Permutation.
 Local Open Scope nat_scope.
@@ -152,33 +152,49 @@ Theorem structural_leaf_record_complete : forall st d L,
 Proof. exact ReduceFacts.reconcile_sparse_frame. Qed.
 Print Assumptions structural_leaf_record_complete.
 
-(* The model's OWN top-level step [reduce_cycle] (the function that is extracted and compared with
-   the C++), in the steady state — primed, published, the collection ticked, capacity sufficient —
-   for the lifted kernel: from any state satisfying the invariant, after a cycle with any number of
-   removals (swap-last), adds and value ticks, the invariant holds again for the reconciled leaves
-   and the published result is the fold (with the zero rules) over the new live values.  The
-   only assumptions about the cycle are about the SOURCE collection (C05): every reconciled leaf
-   has a value in the new store, and values of leaves that are neither structural nor ticked did
-   not change. *)
+(* rebuild_structure's capacity: from a power of two (or 0 = never grown) to a power of two (or 0)
+   that holds the live leaves, and at least 2 when a zero is given *)
+Theorem capacity_is_a_power_of_two : forall cf cap live k0, capk cap k0 ->
+  exists k, capk (next_capacity cf cap live) k /\ live <= 2 ^ k /\ (c_has_zero cf = true -> 1 <= k).
+Proof. exact ReduceFacts.next_capacity_spec. Qed.
+Print Assumptions capacity_is_a_power_of_two.
+
+(* EVERY evaluated cycle of the model's OWN top-level step [reduce_cycle] (the function that is
+   extracted and compared with the C++): whatever branch reduce_reconcile takes - first observation,
+   collection not yet valid, sparse reconciliation with any number of swap-last removals, adds and
+   value ticks, no rebuild / partial rebuild / full rebuild / growth into the other bank - the
+   invariant is re-established for the reconciled leaves L', the node is published, and the result
+   is the fold (with the zero rules) over the new live values.  Hypotheses about the cycle concern
+   the source collection only. *)
 Theorem reduce_eq_fold_cycle : forall f cf, (forall a b c, f (f a b) c = f a (f b c)) -> c_lifted cf = true ->
-  forall st0 st d zero_event s k vals L' sl stc vals',
-  r_primed s = true -> r_published s = true -> r_cap s = 2 ^ k ->
-  (if c_list cf then true else st_valid st) = true ->
-  tree_inv f cf st0 (r_leaves s) vals k (r_combs s) ->
-  r_pub s = agg_src cf (r_leaves s) (r_combs s)
-              (root_aggregate (c_has_zero cf) (2 ^ k) (length (r_leaves s)) (length (r_combs s))) ->
-  reconcile_sparse st d (r_leaves s) = (L', sl, stc) ->
-  leaf_vals st L' vals' -> length L' <= 2 ^ k ->
-  Nat.max (2 ^ k) (Nat.max (if c_has_zero cf then 2 else 0) (if length L' =? 0 then 0 else bit_ceil (length L'))) = 2 ^ k ->
-  (forall i, ~ In i sl -> ~ In i (ticked_leaves d L') -> nth_opt i vals' = nth_opt i vals) ->
-  let s2 := o_state (reduce_cycle f cf st d true zero_event s) in
-  r_leaves s2 = L' /\ r_cap s2 = 2 ^ k /\ r_primed s2 = true /\ r_published s2 = true /\
-  tree_inv f cf st L' vals' k (r_combs s2) /\
-  r_pub s2 = agg_src cf L' (r_combs s2)
-               (root_aggregate (c_has_zero cf) (2 ^ k) (length L') (length (r_combs s2))) /\
-  result_of cf st s2 = spec_result f cf vals'.
-Proof. exact ReduceFacts.reduce_cycle_steady. Qed.
+  forall st0 st d coll zero s vals L' sl stc full pr vals',
+  cycle_inv f cf st0 s vals -> coll || zero = true ->
+  reconcile_leaves cf st d coll s = (L', sl, stc, full, pr) ->
+  leaf_vals st L' vals' ->
+  (full && (stc || negb (r_published s)) = false ->
+     forall i, ~ In i sl -> ~ In i (ticked_eff cf st d coll L') -> nth_opt i vals' = nth_opt i vals) ->
+  let s2 := o_state (reduce_cycle f cf st d coll zero s) in
+  r_published s2 = true /\ r_leaves s2 = L' /\ pub_inv f cf st s2 vals' /\ result_of cf st s2 = spec_result f cf vals'.
+Proof. exact ReduceFacts.reduce_cycle_correct. Qed.
 Print Assumptions reduce_eq_fold_cycle.
+
+(* reduce_eq_fold: for every history (list of cycles: adds, swap-last removes, updates, several per
+   cycle, empty ticks, zero ticks, shrink to empty and regrow, any capacity growth) from the empty
+   reduction and every associative combiner, once the node has published - which every evaluated
+   cycle makes it do (published_after_evaluation) - the published root is the fold of f over the
+   values of the live leaves in dense order, with the zero rules.  [hist_ok] is the explicit
+   source-collection hypothesis (C05), cycle by cycle. *)
+Theorem reduce_eq_fold : forall f cf, (forall a b c, f (f a b) c = f a (f b c)) -> c_lifted cf = true ->
+  forall h, hist_ok f cf rstate0 [] h -> r_published (run f cf h) = true ->
+  result_of cf (fst (final (store0, []) h)) (run f cf h) = spec_result f cf (snd (final (store0, []) h)).
+Proof. exact ReduceFacts.run_eq_fold. Qed.
+Print Assumptions reduce_eq_fold.
+
+Theorem published_after_evaluation : forall f cf, (forall a b c, f (f a b) c = f a (f b c)) -> c_lifted cf = true ->
+  forall st s vals c, cycle_inv f cf st s vals -> src_ok cf s vals c ->
+  (cy_coll c || cy_zero c = true \/ r_published s = true) -> r_published (step f cf s c) = true.
+Proof. exact ReduceFacts.step_published. Qed.
+Print Assumptions published_after_evaluation.
 
 (* ---- order independence --------------------------------------------------------------- *)
 
@@ -194,6 +210,17 @@ Theorem reduce_order_independent : forall f cf,
   src_value cf st2 combs2 (agg_src cf L2 combs2 (root_aggregate (c_has_zero cf) (2 ^ k2) (length L2) (length combs2))).
 Proof. exact ReduceFacts.order_independent. Qed.
 Print Assumptions reduce_order_independent.
+
+(* ... and over whole histories: two histories (any order of adds / removes / ticks, any capacity
+   history) whose final live values are permutations of each other publish the same result *)
+Theorem reduce_order_independent_histories : forall f cf,
+  (forall a b c, f (f a b) c = f a (f b c)) -> (forall a b, f a b = f b a) -> c_lifted cf = true ->
+  forall h1 h2, hist_ok f cf rstate0 [] h1 -> hist_ok f cf rstate0 [] h2 ->
+  r_published (run f cf h1) = true -> r_published (run f cf h2) = true ->
+  Permutation (snd (final (store0, []) h1)) (snd (final (store0, []) h2)) ->
+  result_of cf (fst (final (store0, []) h1)) (run f cf h1) = result_of cf (fst (final (store0, []) h2)) (run f cf h2).
+Proof. exact ReduceFacts.run_order_independent. Qed.
+Print Assumptions reduce_order_independent_histories.
 
 (* ---- zero rules ----------------------------------------------------------------------- *)
 
@@ -225,6 +252,16 @@ Theorem combiner_presence : forall cf (L : list leaf) k, length L <= 2 ^ k ->
 Proof. exact ReduceFacts.needed_iff. Qed.
 Print Assumptions combiner_presence.
 
+(* combiner_count: in every state satisfying the invariant (after every evaluated cycle, by
+   reduce_eq_fold_cycle): n >= 2 live leaves use exactly n - 1 combiners, a singleton with a zero one,
+   an empty collection or a singleton without zero none - whatever the capacity history *)
+Theorem combiner_count : forall f cf st s vals, pub_inv f cf st s vals ->
+  Reduce.combiner_count s =
+    if 2 <=? length (r_leaves s) then length (r_leaves s) - 1
+    else if c_has_zero cf && (length (r_leaves s) =? 1) then 1 else 0.
+Proof. exact ReduceFacts.state_combiner_count. Qed.
+Print Assumptions combiner_count.
+
 (* ---- non-vacuity ---------------------------------------------------------------------- *)
 
 Local Open Scope Z_scope.
@@ -249,3 +286,13 @@ Proof. exact ReduceFacts.example_inv_holds. Qed.
 
 Example c11_cycle_hypotheses_inhabited : ReduceFacts.example_cycle.
 Proof. exact ReduceFacts.example_cycle_holds. Qed.
+
+(* a concrete history produced by the slot-store model ({10:1, 11:2} added; 11 ticks to 64; 10 removed
+   by swap-last) satisfies the source hypotheses of reduce_eq_fold, publishes, and yields 64 *)
+Example c11_history_inhabited : hist_ok Z.add ReduceFacts.exh_cf rstate0 [] ReduceFacts.exh_hist.
+Proof. exact ReduceFacts.exh_ok. Qed.
+
+Example c11_history_result :
+  r_published (run Z.add ReduceFacts.exh_cf ReduceFacts.exh_hist) = true /\
+  result_of ReduceFacts.exh_cf (fst (final (store0, []) ReduceFacts.exh_hist)) (run Z.add ReduceFacts.exh_cf ReduceFacts.exh_hist) = Some 64.
+Proof. exact ReduceFacts.exh_result. Qed.
